@@ -74,7 +74,7 @@ def gen_list_step(rng, dt, L, tr):
     def rs():
         return [rng.choice([None, ri()]), rng.choice([None, ri()]), rng.choice([None, None, 1, -1, 2, -2, 3, -3])]
     op = rng.choice(LIST_OPS)
-    val = lambda: dt.rng_value(rng, rng.random() > 0.12)  # noqa: E731
+    val = lambda: dt.rng_value(rng, rng.random() > 0.12, raw=True)  # noqa: E731   (values to STORE may lie beyond the format's range: its overflow rule applies)
     if op == 'get':
         return [op, ri()]
     if op == 'getslice':
